@@ -760,7 +760,7 @@ impl AExec {
                 }
                 Ok(Out::Unit)
             }
-            Op::EnvNonUtf8(_) | Op::EnvDanglingSymlink(_) | Op::EnvRemoveBehind(_) => Ok(Out::Unit),
+            Op::EnvNonUtf8(_) | Op::EnvDanglingSymlink(_) | Op::EnvRemoveBehind(_) | Op::EnvSpecial(..) => Ok(Out::Unit),
         }
     }
 }
